@@ -24,6 +24,7 @@ LEVEL_TEXT = (
     "with fit(existing_points, existing_losses) dominating predict. (R3) best-batch parents, shock count/size/sign "
     "intervals and the shift formula are checked by normal form and interval folding of the integer draws. "
     "Which candidates minimise a particular surrogate, and argmin ties, are runtime values and not decided."
+    " The substitution rules of the BaseSampler.sample wrapper (C12) are included: what replaces a duplicate comes from the sampler's own sample_batch, never from another distribution."
 )
 TECHNIQUE = "interprocedural flow-sensitive alias/mutation analysis + formula normal form + interval folding"
 
